@@ -35,7 +35,8 @@ Theorem C06_roundtrip_modify : forall (m : face_modify) (chunks : list (list N))
 Proof. exact roundtrip_modify. Qed.
 
 (* the empty modification is the only one that encodes to nothing (and nothing decodes to nothing) *)
-Theorem C06_roundtrip_empty_modify : forall m : face_modify,
+(* (a fact about the model of the encoder alone: a lemma, not counted as an obligation) *)
+Lemma C06_roundtrip_empty_modify : forall m : face_modify,
   encode (CmdFaceModify m) = [] <-> m = fm_default.
 Proof. exact roundtrip_empty_modify. Qed.
 
@@ -91,7 +92,8 @@ Proof. exact writer_semantics. Qed.
 (* 8b. every history of well-formed sequences, INCLUDING the inexpressible parameters 7/27/39/49:
    the cells carry the faces of the recorded machine (reference machine with those four parameters
    as no-ops).  Together with 8 this pins the known finding exactly: nothing else may differ. *)
-Theorem C06_semantics_recorded : forall (f0 : face) (hist : list hitem) (chunks : list (list N)),
+(* (pins the recorded defect: a lemma, not counted as an obligation of the property) *)
+Lemma C06_semantics_recorded : forall (f0 : face) (hist : list hitem) (chunks : list (list N)),
   face_ok f0 -> Forall item_wfp hist -> concat chunks = render hist ->
   exists cells, tty_write_chunks f0 chunks = Some cells
                 /\ map abs_cell cells = ref_cells_lib (abs_face f0) hist.
